@@ -46,8 +46,8 @@ def bc_shapes(rng, N, hi):
 
 
 def cases(rng, tier):
-    n = {"quick": 360, "thorough": 6000, "search": 2500}[tier]
-    nexpr = {"quick": 60, "thorough": 1200, "search": 400}[tier]
+    n = {"quick": 800, "thorough": 6000, "search": 2500}[tier]
+    nexpr = {"quick": 150, "thorough": 1200, "search": 400}[tier]
     hi = 4 if tier == "quick" else 5
     out = []
     for i in range(n):
